@@ -315,6 +315,71 @@ def closure(shapes):
     return out
 
 
+def _fresh_returning(modinfo):
+    """names of the functions / methods of the file whose every `return` hands back a fresh object (a constructor call, a
+    literal, a sum ...)"""
+    out = set()
+    for (qual, f, _m) in functions_of(modinfo):
+        rets = [n for n in ast.walk(f) if isinstance(n, ast.Return) and n.value is not None]
+        if rets and all(_is_fresh_expr(r.value) for r in rets):
+            out.add(qual.split(".")[-1])
+    return out
+
+
+def _param_always_fresh(modinfo, qual, pname):
+    """the parameter `pname` of the PRIVATE function `qual` receives, at every call site in the file (at least one), an
+    object that was made there: a fresh expression, or the result of a function of the file that returns fresh objects.
+    What such a function writes through that parameter stays inside the object under construction."""
+    name = qual.split(".")[-1]
+    if not name.startswith("_") or name.startswith("__"):
+        return False
+    target = next((f for (q, f, _m) in functions_of(modinfo) if q == qual), None)
+    if target is None:
+        return False
+    params = [a.arg for a in target.args.posonlyargs + target.args.args]
+    if pname not in params:
+        return False
+    is_method = "." in qual and params and params[0] in ("self", "cls")
+    idx = params.index(pname) - (1 if is_method else 0)
+    fresh_fns = _fresh_returning(modinfo)
+    seen = 0
+    for (q2, f2, m2) in functions_of(modinfo):
+        ff = None
+        for n in ast.walk(f2):
+            if not isinstance(n, ast.Call):
+                continue
+            fn = n.func
+            callee = fn.attr if isinstance(fn, ast.Attribute) else (fn.id if isinstance(fn, ast.Name) else None)
+            if callee != name:
+                continue
+            arg = None
+            if 0 <= idx < len(n.args):
+                arg = n.args[idx]
+            for kw in n.keywords:
+                if kw.arg == pname:
+                    arg = kw.value
+            if arg is None:
+                return False
+            seen += 1
+            if ff is None:
+                ff = FunctionFrame(f2, is_method=m2 if "<locals>" not in q2 else False)
+
+            def fresh(e, depth=0):
+                if _is_fresh_expr(e):
+                    return True
+                if isinstance(e, ast.Call):
+                    c = e.func.attr if isinstance(e.func, ast.Attribute) else (e.func.id if isinstance(e.func, ast.Name) else None)
+                    return c in fresh_fns
+                if isinstance(e, ast.Name) and depth < 4:
+                    b = ff.binds.get(e.id)
+                    return bool(b) and e.id not in ff.role and all(k == "assign" and fresh(x, depth + 1) for (k, x) in b)
+                return False
+
+            if not fresh(arg):
+                return False
+    return seen > 0
+
+
 def check_frame(modinfo, rel, shapes=(), roots=None, allow_self_rebind=True, self_rebind_in=None):
     """the stores of the file that are outside the frame.
     shapes: allowed path shapes of the file;  roots: when given, only stores whose root is in this set are of
@@ -327,6 +392,10 @@ def check_frame(modinfo, rel, shapes=(), roots=None, allow_self_rebind=True, sel
         r = "G" if s.root.startswith("G:") else s.root
         if roots is not None and r not in roots:
             continue
+        if r == "P":
+            m_ = _re.match(r"[A-Za-z_]\w*", s.text)
+            if m_ and _param_always_fresh(modinfo, qual, m_.group(0)):
+                continue      # written through a parameter that only ever receives objects made by the caller: not an input
         bad.append("%s::%s line %d: `%s` writes through the path %s" % (rel, qual, s.lineno, s.text, s.shape))
     return bad
 
